@@ -147,13 +147,28 @@ impl HttpProtocol {
     }
 }
 
-impl From<::http::Version> for HttpProtocol {
-    fn from(version: ::http::Version) -> Self {
+impl HttpProtocol {
+    /// Select the connection protocol for a request's HTTP version.
+    ///
+    /// HTTP/0.9, HTTP/1.0 and HTTP/1.1 requests are carried by an HTTP/1.1 connection, HTTP/2 requests
+    /// by an HTTP/2 connection. Returns `None` for versions no connection can be made with (HTTP/3).
+    pub fn from_version(version: ::http::Version) -> Option<Self> {
         match version {
-            ::http::Version::HTTP_11 | ::http::Version::HTTP_10 => Self::Http1,
-            ::http::Version::HTTP_2 => Self::Http2,
-            _ => panic!("Unsupported HTTP protocol"),
+            ::http::Version::HTTP_09 | ::http::Version::HTTP_10 | ::http::Version::HTTP_11 => {
+                Some(Self::Http1)
+            }
+            ::http::Version::HTTP_2 => Some(Self::Http2),
+            _ => None,
         }
+    }
+}
+
+impl From<::http::Version> for HttpProtocol {
+    /// # Panics
+    /// Panics for HTTP versions which are not supported (HTTP/3). Use [`HttpProtocol::from_version`]
+    /// for a conversion that does not panic.
+    fn from(version: ::http::Version) -> Self {
+        Self::from_version(version).expect("Unsupported HTTP protocol")
     }
 }
 
